@@ -29,6 +29,7 @@ CONSTANTS Capacity,
           FixAbsent,     \* absent-source reads register a dependency; first insert starts a new epoch; tombstones
           FixEqWrite,    \* an equal-value write leaves time_updated alone
           FixTopLevel,   \* dependency verification does not record dependencies as top-level calls
+          FixVerifyRegs, \* dependency verification does not register the verified nodes in the frame on top of the stack
           KeyOf(_)       \* node -> cache key (C04: the pinned macro hashes the signature text only)
 
 Max(a, b) == IF a > b THEN a ELSE b
@@ -79,7 +80,7 @@ PushRegs(st, regs) == IF regs = <<>> THEN st ELSE PushRegs(PushDep(st, "fn", Hea
 
 PutTop(top, n) == Append(SelectSeq(top, LAMBDA x : x # n), n)
 
-RECURSIVE Exec(_, _, _, _, _), DepsChanged(_, _, _, _, _, _, _, _), RunE(_, _), RunBody(_, _, _, _), SumKeys(_, _)
+RECURSIVE Exec(_, _, _, _, _), DepsChanged(_, _, _, _, _, _, _, _), RunE(_, _), RunBody(_, _, _, _), SumKeys(_, _), SumLeaves(_, _)
 
 \* result of Exec: [db, did, tu, evs, panic, regs]
 \* regs = the dependency registrations that this call performs in the ENCLOSING frame, in order: every
@@ -115,9 +116,12 @@ Exec(db, src, mp, n, stackEmpty) ==
      ELSE IF db1.rv[K(n)].tv = db1.ep THEN Reused(db1, n, <<>>, <<>>)
      ELSE LET db2 == [db1 EXCEPT !.rv[K(n)].tv = db1.ep]
               dc  == DepsChanged(db2, src, mp, n, 1, <<>>, IF FixTopLevel THEN FALSE ELSE stackEmpty, <<>>)
-          IN IF dc.panic THEN [db |-> dc.db, did |-> "error", tu |-> 1, evs |-> dc.evs, panic |-> TRUE, regs |-> dc.regs]
-             ELSE IF dc.changed THEN Update(dc.db, src, mp, n, dc.evs, dc.regs)
-             ELSE Reused(dc.db, n, dc.evs, dc.regs)
+              \* FixVerifyRegs (fix in /repo): a dependency that is only being VERIFIED brings itself up to date without
+              \* registering in the frame on top of the stack, so nothing reaches the enclosing frame but n itself
+              vregs == IF FixVerifyRegs THEN <<>> ELSE dc.regs
+          IN IF dc.panic THEN [db |-> dc.db, did |-> "error", tu |-> 1, evs |-> dc.evs, panic |-> TRUE, regs |-> vregs]
+             ELSE IF dc.changed THEN Update(dc.db, src, mp, n, dc.evs, vregs)
+             ELSE Reused(dc.db, n, dc.evs, vregs)
 
 SrcChangedSince(db, k, since) ==
   IF db.sn[k].p THEN db.sn[k].tu > since
@@ -170,6 +174,12 @@ SumKeys(st, ks) ==       \* fold ReadKeyed over a sequence of keys, accumulating
            s1 == ReadKeyed(st, Head(ks))
        IN IF s1.panic THEN s1 ELSE SumKeys([s1 EXCEPT !.ret = acc + s1.ret], Tail(ks))
 
+SumLeaves(st, ks) ==     \* fold the memoized call leaf(db, id) over a sequence of keys, accumulating the sum in .ret
+  IF ks = <<>> THEN st
+  ELSE LET acc == st.ret
+           s1 == RunE(st, [t |-> "fn", m |-> "leaf:" \o Head(ks)])
+       IN IF s1.panic THEN s1 ELSE SumLeaves([s1 EXCEPT !.ret = acc + s1.ret], Tail(ks))
+
 RunE(st, e) ==
   IF st.panic THEN st
   ELSE CASE e.t = "const" -> [st EXCEPT !.ret = e.v]
@@ -220,6 +230,8 @@ RunE(st, e) ==
                            ELSE IF s1.ret = 1 THEN RunE(s1, e.x) ELSE RunE(s1, e.y)
     [] e.t = "tsum"  -> LET s1 == ReadSingleton(st, CNT)      \* View::tracked() reads the counter singleton
                         IN SumKeys([s1 EXCEPT !.ret = 0], SortedKeys(st.mp))
+    [] e.t = "tsumL" -> LET s1 == ReadSingleton(st, CNT)
+                        IN SumLeaves([s1 EXCEPT !.ret = 0], SortedKeys(st.mp))
 
 \* ---- one user-level call: the prelude calls (MemoRef arguments) then the call itself ---------
 RECURSIVE UserCalls(_, _, _, _, _)
